@@ -448,6 +448,19 @@ func probeOp(w []string) string {
 		return probeEnumAll()
 	case "encrypt":
 		return probeEncrypt(w)
+	case "kvsweep":
+		if len(w) != 4 {
+			return "bad-op"
+		}
+		n, err := strconv.Atoi(w[3])
+		if err != nil || n < 0 || n > 1<<20 {
+			return "bad-op"
+		}
+		switch w[2] {
+		case "overlay", "namespace", "encrypt", "blobpacked":
+			return probeKVSweep(w[2], n)
+		}
+		return "bad-op"
 	case "treesweep":
 		if len(w) < 4 {
 			return "bad-op"
